@@ -37,7 +37,14 @@ func (c *checkCtx) writeRegoReplay(o regosym.Outcome) string {
 	sum := sha1.Sum([]byte(o.Profile + o.Data + o.Label))
 	dir := filepath.Join(verifDir(), "replays", c.spec.ID, fmt.Sprintf("%x", sum[:6]))
 	os.MkdirAll(dir, 0o755)
-	in := map[string]any{"kind": "rego-verdict", "label": o.Label, "program": o.Program, "expected": o.Expected, "predicted": o.Predicted, "actual_at_check_time": o.Actual, "detail": o.Detail, "signature": o.Signature}
+	kind := "rego-verdict"
+	if strings.HasPrefix(o.Label, "C12.") || strings.HasPrefix(o.Label, "C14.location") || strings.HasPrefix(o.Label, "C13.") || strings.HasPrefix(o.Label, "C03.") {
+		kind = "rego-shape"
+	}
+	if strings.HasPrefix(o.Label, "C02.") {
+		kind = "rego-path"
+	}
+	in := map[string]any{"kind": kind, "replay_data": o.Replay, "label": o.Label, "program": o.Program, "expected": o.Expected, "predicted": o.Predicted, "actual_at_check_time": o.Actual, "detail": o.Detail, "signature": o.Signature}
 	b, _ := json.MarshalIndent(in, "", " ")
 	os.WriteFile(filepath.Join(dir, "inputs.json"), b, 0o644)
 	os.WriteFile(filepath.Join(dir, "profile.yaml"), []byte(o.Profile), 0o644)
@@ -181,4 +188,123 @@ func regoC02(c *checkCtx) {
 		return
 	}
 	c.absorb(outs, "C02.set-eq-denotation")
+}
+
+func shapeFamily(thorough bool) []regosym.Program {
+	var progs []regosym.Program
+	atoms := regosym.FamilyAtoms(false)
+	for i, p := range atoms {
+		if thorough || i%4 == 0 || i%4 == 1 {
+			progs = append(progs, p)
+		}
+	}
+	progs = append(progs, regosym.FamilyQuantified(thorough)...)
+	progs = append(progs, regosym.FamilyLevels()...)
+	return progs
+}
+
+// regoC12: every result object the module can produce is well-formed.
+func regoC12(c *checkCtx) {
+	progs := shapeFamily(c.tier == "thorough")
+	c.evidence["bounds_regosym"] = map[string]any{"nodes": 3, "values_per_property": 2, "families": "atoms, quantified (nested sub-results to depth 2), level layouts"}
+	outs, err := runShapes(regoWork(c), progs, func(p regosym.Program) regosym.Scope { return regosym.ScopeFor(p, 3, 2, 3) }, regosym.ShapeOptions{ResultShape: true}, 16)
+	if err != nil {
+		c.inconclusive("regosym: " + err.Error())
+		return
+	}
+	c.absorb(outs, "C12.result-shape")
+}
+
+var lexPool = []regosym.LexEntry{
+	{Range: "[(0,9)-(10,99)]", URI: "root:file"}, {Range: "[(100,2147483648)-(9007199254740993,0)]", URI: "file://other.raml"}, {Range: "[(3,4)-(5,6)]", URI: "file://other.raml"},
+}
+
+// regoC14: results carry exactly the lexical entry of their node; verdicts do not depend on it.
+func regoC14(c *checkCtx) {
+	thorough := c.tier == "thorough"
+	var progs []regosym.Program
+	for i, p := range regosym.FamilyAtoms(false) {
+		if thorough || i%8 == 0 || i%8 == 1 {
+			progs = append(progs, p)
+		}
+	}
+	q := regosym.FamilyQuantified(false)
+	for i, p := range q {
+		if thorough || i%4 == 0 {
+			progs = append(progs, p)
+		}
+	}
+	scope := func(p regosym.Program) regosym.Scope {
+		sc := regosym.ScopeFor(p, 3, 2, 2)
+		sc.Lexical = lexPool
+		return sc
+	}
+	c.evidence["bounds_regosym"] = map[string]any{"nodes": 3, "lexical_pool": lexPool, "magnitudes": "0, 9, 10, 99, 100, 2^31, 2^53+1"}
+	outs, err := runShapes(regoWork(c), progs, scope, regosym.ShapeOptions{Locations: true}, 16)
+	if err != nil {
+		c.inconclusive("regosym: " + err.Error())
+		return
+	}
+	c.absorb(outs, "C14.location-eq-lexical")
+	// verdicts with source maps in scope equal the reference verdicts (which ignore source maps)
+	var vprogs []regosym.Program
+	for i, p := range progs {
+		if i%3 == 0 {
+			vprogs = append(vprogs, p)
+		}
+	}
+	outs2, err := runPrograms(regoWork(c), vprogs, scope, map[string]bool{}, 16)
+	if err != nil {
+		c.inconclusive("regosym: " + err.Error())
+		return
+	}
+	for i := range outs2 {
+		if outs2[i].Status == "violation" && outs2[i].Signature != "" {
+			// the listed C01 deviations are not this property's business
+			outs2[i].Status = "held"
+		}
+	}
+	c.absorb(outs2, "C14.verdict-unaffected")
+}
+
+// regoC03: the level plumbing inside the emitted module.
+func regoC03(c *checkCtx) {
+	progs := regosym.FamilyLevels()
+	scope := func(p regosym.Program) regosym.Scope { return regosym.ScopeFor(p, 2, 2, 2) }
+	c.evidence["bounds_regosym"] = map[string]any{"nodes": 2, "level_layouts": len(progs), "layout": "2-3 validations each under violation | warning | info | defined-but-unlisted, plus a listed-but-undefined name"}
+	outs, err := runPrograms(regoWork(c), progs, scope, map[string]bool{}, 16)
+	if err != nil {
+		c.inconclusive("regosym: " + err.Error())
+		return
+	}
+	c.absorb(outs, "C03.level-of-shape")
+	outs2, err := runShapes(regoWork(c), progs, scope, regosym.ShapeOptions{}, 16)
+	if err != nil {
+		c.inconclusive("regosym: " + err.Error())
+		return
+	}
+	c.absorb(outs2, "C03.levels-defined")
+}
+
+// regoC13: placeholder substitution at evaluation time.
+func regoC13(c *checkCtx) {
+	msgs := []string{"m {{ex.p0}} end", "{{ex.p0}}", "say \"{{ex.p0}}\" 100% sure", "a\\b {{ ex.p0 }} c"}
+	var progs []regosym.Program
+	for _, m := range msgs {
+		p := regosym.Program{Name: "P", Validations: []regosym.Validation{{Name: "v", Level: "violation", Class: 0, Message: m,
+			F: regosym.And{Fs: []regosym.Formula{regosym.Atom{Path: regosym.P(1), Kind: "minCount", N: 1}}}}}}
+		progs = append(progs, p)
+	}
+	scope := func(p regosym.Program) regosym.Scope {
+		sc := regosym.ScopeFor(p, 2, 2, 2)
+		sc.Scalars = regosym.MessagePool()
+		return sc
+	}
+	c.evidence["bounds_regosym"] = map[string]any{"messages": msgs, "value_pool": "a string with a quote and a percent sign, an integer, a boolean, a float"}
+	outs, err := runShapes(regoWork(c), progs, scope, regosym.ShapeOptions{Message: true}, 16)
+	if err != nil {
+		c.inconclusive("regosym: " + err.Error())
+		return
+	}
+	c.absorb(outs, "C13.message-substitution")
 }
